@@ -214,12 +214,15 @@ def prop_locs(case):
     while pool:
         ent.append(pool.pop(x % len(pool))); x //= 3
     nodes = []
+    dummy = Node(c, 'zz~placeholder', 'buf') if case['shuffle'] % 2 else None      # removed again below: the last node then takes its index
     for k, (name, base, idx) in enumerate(ent):
         kind = case['kinds'][k % len(case['kinds'])]
         n = Node(c, name, kind)
         nodes.append((n, base, idx, kind))
         if kind in ('input', 'output'):
             c.io_nodes.append(n)
+    if dummy is not None:
+        dummy.remove()
     bases = sorted({e[1] for e in ent})
     b0 = bases[case['pref'] % len(bases)]
     prefixes = [b0, b0[:max(1, min(len(b0), case['plen']))], 'zz']
